@@ -1,12 +1,28 @@
 """Engine `strings` (C04): printers for every buffer length with guard bytes; parsers on valid, mutated and raw strings."""
+import re
 from eng_generic import DiffEngine
 
-ENGINE = DiffEngine("strings", include_c=("bitmap",), stateful=False,
+_EXT = re.compile(r" (maxread|alloc) \d+")
+
+
+def classify(op, c, m):
+    """The property constrains return value, resulting set and that no access is out of bounds (an out-of-bounds read is a
+    fault / ASan report, never a mere difference).  HOW FAR inside the string the parser reads and how many words it
+    allocates are not constrained: a difference confined to the `maxread` / `alloc` fields (both sides well-formed) is
+    counted as benign_repr_diffs (= the read/allocation model no longer mirrors the code; 0 on the pinned tree), not a violation."""
+    if _EXT.search(c) and _EXT.search(m) and _EXT.sub("", c) == _EXT.sub("", m):
+        return "benign"
+    return "diff"
+
+
+ENGINE = DiffEngine("strings", include_c=("bitmap",), stateful=False, classify=classify,
                     sizes={"quick": (16, 2500), "thorough": (64, 20000)},
                     distinct_key=lambda op, c: op.split()[0] + op.split()[1] + "|" + c,
                     rule="per generated bitmap: every buffer length 0..need+2 for one of the three formats (guard bytes both "
                          "sides, untouched-cell sentinel) + asprintf; per generated string (printer output, token-mutated, "
-                         "grammar alphabet, boundary shapes, raw bytes): sscanf into two differently pre-filled destinations; "
+                         "grammar alphabet, boundary shapes, signs, long inputs, raw bytes): sscanf into two differently pre-filled destinations, "
+                         "then on prefixes of the string placed below a PROT_NONE page (furthest index really read, compared with the "
+                         "cursor-level model's read log; allocation compared with the model's realloc sizing); "
                          "distinct = distinct (call, format, observed C result)")
 
 
